@@ -196,7 +196,10 @@ def detect_closure_renames(j, table):
             if bj["path"] == par:
                 par_body = bj
         par_text = json.dumps(par_body["blocks"]) if par_body is not None else ""
-        for f in fresh_fn:
+        # only initialiser closures of statics/consts are looked for among the named functions (`Lazy::new(init_fn)`):
+        # a closure of an ordinary function that became a named helper is handled by inlining the helper instead
+        par_is_static = par_body is not None and par_body.get("kind") in ("static", "const")
+        for f in (fresh_fn if par_is_static else []):
             if f in conv:
                 continue
             sc = _callee_score(table[m], fingerprint(present[f], ch))
@@ -215,6 +218,83 @@ def detect_closure_renames(j, table):
     return ren, conv
 
 
+def _closure_index(path):
+    m = re.search(r"\{closure#(\d+)\}$", path)
+    return int(m.group(1)) if m else -1
+
+
+def _fp_equalish(a, b):
+    """Similarity of two closure fingerprints including signature (closures with no calls compare by signature)."""
+    sc = _callee_score(a, b)
+    if not a["callees"] and not b["callees"]:
+        sc = 0.7
+    sa = [re.sub(r"'\w+", "'_", x) for x in a["sig"][:1] + a["sig"][2:]]
+    sb = [re.sub(r"'\w+", "'_", x) for x in b["sig"][:1] + b["sig"][2:]]
+    if a["argc"] != b["argc"] or sa != sb:
+        sc -= 0.3
+    return sc
+
+
+def realign_closures(j, table):
+    """Closure indices are positional: adding or removing one closure renumbers all later closures of the function.
+    For every function whose closures no longer line up with the reference (some closure at index i looks unlike the
+    reference closure i), the present closures are matched to the reference closures by fingerprint (ties broken by
+    keeping the order); matched ones get the reference index back, unmatched ones (new closures) indices from 100 up."""
+    ch = _children(j)
+    by_parent = {}
+    for bj in j["bodies"]:
+        if bj["kind"] == "closure" and bj.get("parent"):
+            by_parent.setdefault(bj["parent"], []).append(bj)
+    tab_by_parent = {}
+    for pth, fp in table.items():
+        if fp.get("kind") == "closure":
+            tab_by_parent.setdefault(_closure_parent(pth), []).append(pth)
+    ren = {}
+    for par, cls in by_parent.items():
+        tcs = tab_by_parent.get(par)
+        if not tcs:
+            continue
+        cls = sorted(cls, key=lambda b: _closure_index(b["path"]))
+        tcs = sorted(tcs, key=_closure_index)
+        fps = {c["path"]: fingerprint(c, ch) for c in cls}
+        # already aligned?
+        aligned = all((c["path"] in table and _fp_equalish(table[c["path"]], fps[c["path"]]) >= 0.6) for c in cls) and len(cls) == len(tcs)
+        if aligned:
+            continue
+        pairs = []
+        for ci, c in enumerate(cls):
+            for ti, tp in enumerate(tcs):
+                sc = _fp_equalish(table[tp], fps[c["path"]])
+                if sc >= 0.55:
+                    pairs.append((sc, -abs(_closure_index(c["path"]) - _closure_index(tp)), ci, ti))
+        pairs.sort(reverse=True)
+        usedc, usedt = {}, set()
+        for sc, _d, ci, ti in pairs:
+            if ci in usedc or ti in usedt:
+                continue
+            # keep the relative order of the matched closures (an insertion shifts, it does not permute)
+            ok = True
+            for c2, t2 in usedc.items():
+                if (c2 < ci) != (t2 < ti):
+                    ok = False
+            if not ok:
+                continue
+            usedc[ci] = ti
+            usedt.add(ti)
+        nxt = 100
+        for ci, c in enumerate(cls):
+            if ci in usedc:
+                tgt = tcs[usedc[ci]]
+            else:
+                while ("%s::{closure#%d}" % (par, nxt)) in fps:
+                    nxt += 1
+                tgt = "%s::{closure#%d}" % (par, nxt)
+                nxt += 1
+            if tgt != c["path"]:
+                ren[c["path"]] = tgt
+    return ren
+
+
 def normalise(raw_text):
     """-> (fact dict, {new path: known path}, {fresh helper: [callers it was inlined into]})"""
     if not os.path.exists(ANCHORS):
@@ -229,7 +309,19 @@ def normalise(raw_text):
     # (1) renamed / moved functions
     ren = detect_renames(j, ftable)
     if ren:
-        j = json.loads(apply_renames(json.dumps(j), ren))
+        # a renamed trait shows as renamed impl methods: `<T as new::Trait>::m` -> `<T as old::Trait>::m`
+        trait_ren = {}
+        for new, old in ren.items():
+            mn = re.match(r"^<(.*) as ([^<>]+)>::(\w+)$", new)
+            mo = re.match(r"^<(.*) as ([^<>]+)>::(\w+)$", old)
+            if mn and mo and mn.group(1) == mo.group(1) and mn.group(3) == mo.group(3) and mn.group(2) != mo.group(2):
+                trait_ren[mn.group(2)] = mo.group(2)
+        text = apply_renames(json.dumps(j), ren)
+        if trait_ren:
+            text = apply_renames(text, trait_ren)
+            ren = dict(ren)
+            ren.update(trait_ren)
+        j = json.loads(text)
         allren.update(ren)
     # (2) closures turned into named functions (used as function values, so they cannot be inlined)
     _r, conv = detect_closure_renames(j, table)
@@ -252,9 +344,13 @@ def normalise(raw_text):
     if cren:
         j = json.loads(apply_renames(json.dumps(j), cren))
         allren.update(cren)
+    cren2 = realign_closures(j, table)
+    if cren2:
+        j = json.loads(apply_renames(json.dumps(j), cren2))
+        allren.update({k: v for k, v in cren2.items() if v in table})
     # (4b) closures that are called directly where they are defined are local helpers
     from .inline import inline_local_closure_calls
-    inline_local_closure_calls(j)
+    inline_local_closure_calls(j, known=set(table))
     # (5) named booleans: keep the paths that decided a bool local apart up to the branch on it
     from .inline import decide_linear_bool_switches, split_bool_merges
     for bj in j["bodies"]:
